@@ -27,6 +27,9 @@ static const void *vh_get_table(const void *h, unsigned int tag, size_t *len) {
 #ifdef VH_PIN_BYTES
   VH_PIN_BYTES(b);              // straight-line constant stores defined by the harness (counts that size allocations must fold to constants in symex)
 #endif
+#ifdef VH_KEEP_COPY     /* the harness keeps its own copy of what was served (the library releases the buffer) */
+  for (size_t i_ = 0; i_ < p->len && i_ < sizeof vh_copy; ++i_) vh_copy[i_] = b[i_];
+#endif
   ++p->outstanding; ++p->handed_out; p->last = b;
   *len = p->len;
   return b;
